@@ -122,7 +122,10 @@ def search(ctx):
             if len(trans) >= 2:
                 x2 = x.clone(); x2[:, trans[0]] += 0.37
                 k2, y2, _ = R.impl_call(t, x2, c, inverse)
-                if k2 == 'ok' and not torch.equal(y2[:, trans[1:]], y[:, trans[1:]]):
+                # (not bit-for-bit: moving one feature across a tail bound changes how many elements the masked spline call
+                # processes, and torch's vectorised kernels differ in the last ulp between lengths; a real dependence is O(1))
+                tolr = (1e-10 * (1 + torch.exp(ld.abs().clamp(max=25)))).reshape(-1, *([1] * (y.dim() - 1)))
+                if k2 == 'ok' and bool(((y2[:, trans[1:]] - y[:, trans[1:]]).abs() > tolr * (1 + y[:, trans[1:]].abs())).any()):
                     ctx.fail('transformed feature depends on another transformed feature', case, match={'class': cls, 'symptom': 'cross-dependence'}); break
         if len(ctx.failing) >= 5 or ctx.elapsed() > 600:
             break
